@@ -269,6 +269,17 @@ def predictor_geometry(ctx, F, pr, png):
                         return env[k]
             return None
         return leaf
+    # which of decode_frame's parameters is the bytes-per-pixel one: the one it hands to decode_row as the left-neighbour distance
+    # (by what it is used for, not by its name or position in the declaration)
+    i_bpp, i_ppr = 1, 2
+    df_ = F.fn("filters::png::decode_frame")
+    drc_ = [c for c in df_.calls if c.local and c.cname.endswith("png::decode_row")]
+    if len(drc_) == 1:
+        o_ = lib.origin_local(F, df_, drc_[0].args[1])
+        us_ = [i for i in range(1, df_.argc + 1) if df_.lty(i) == "usize"]
+        if o_ is not None and o_[0] is df_ and not o_[2] and o_[1] in us_ and len(us_) == 2:
+            i_bpp = o_[1] - 1
+            i_ppr = [i for i in us_ if i != o_[1]][0] - 1
     bad = []
     n = 0
     for columns in (1, 2, 5, 31, 1000):
@@ -276,8 +287,8 @@ def predictor_geometry(ctx, F, pr, png):
             for bits in (8, 16):
                 env = {b"Columns": columns, b"Colors": colors, b"BitsPerComponent": bits, b"Predictor": 12}
                 ev = symeval.Eval(F, pr, mk_leaf(env))
-                bpp = ev.val(png[0].args[1])
-                ppr = ev.val(png[0].args[2])
+                bpp = ev.val(png[0].args[i_bpp])
+                ppr = ev.val(png[0].args[i_ppr])
                 n += 1
                 if bpp != colors * bits // 8 or ppr != columns:
                     bad.append((columns, colors, bits, bpp, ppr))
@@ -288,6 +299,19 @@ def predictor_geometry(ctx, F, pr, png):
 
 def png_rules(ctx, F):
     R = "R-TABLE"
+    # the filter type byte in front of each row: PNG (ISO/IEC 15948) 9.2 — 0 None, 1 Sub, 2 Up, 3 Average, 4 Paeth
+    tf = F.fn("<FilterType as TryFrom>::try_from")
+    tagmap = {}
+    for bi in range(tf.n):
+        t = tf.term(bi)
+        if t["k"] == "switch" and t["dty"] == "u8":
+            for v, x in t["tg"]:
+                vs = [st_["rv"]["kind"].get("var") for bj, sj, st_ in tf.stmts() if (bj == x or tf.dominates(x, bj)) and st_.get("rv") and st_["rv"]["k"] == "agg" and (st_["rv"]["kind"].get("adt") or "").endswith("FilterType")]
+                if len(set(vs)) == 1:
+                    tagmap[int(v)] = vs[0]
+    want_tags = {0: "None", 1: "Sub", 2: "Up", 3: "Avg", 4: "Paeth"}
+    ctx.ob(R, "png-filter-type-bytes", tagmap == want_tags, "filter type bytes %s" % tagmap, tf.where(),
+           what="the PNG filter type byte is read as %s, the PNG specification says %s: rows written with the swapped types are reconstructed with the wrong formula" % (tagmap, want_tags))
     b = F.fn("filters::png::decode_row")
     names = png_roles(b)
     got = stores_with_range(b, names)
@@ -601,6 +625,12 @@ def filter_rules(ctx, F):
             okq = c.dest["l"] == 0 and not c.dest["p"] and len(own) == 1 and any(lib.same_origin(F, fb_, a_, fb_, own[0]) for a_ in c.args)
         ctx.ob("R-SIB", "predictor-undone|%s" % fn_.rsplit("::", 1)[-1], okq, "%s returns decompress_predictor(decoded, params)" % fn_, fb_.where(),
                what="%s does not return decompress_predictor(decoded data, its DecodeParms): a stream of this filter with /Predictor >= 2 comes out with the filter-type bytes and the deltas still in it" % fn_)
+    # 5bb. a filter chain is a sequence: the same filter may be applied twice ([/FlateDecode /FlateDecode]); what Stream::filters
+    # returns keeps order and repeats (a Vec, not a set)
+    fl_ = F.fn("Stream::filters")
+    rt_ = fl_.lty(0)
+    ctx.ob("R-TABLE", "filter-chain-is-a-sequence", "Vec<" in rt_ and not re.search(r"Set<|Map<", rt_), "Stream::filters returns %s" % rt_[:70], fl_.where(),
+           what="Stream::filters returns %s: a filter named twice in /Filter is applied once, and the stream decodes one layer short" % rt_[:90])
     # 5c. the inflater's whole output is taken: read_to_end on the decoder, with no length-limiting adaptor in between (`take(n)`
     # reports a normal end of data at its limit: the rest of a highly compressible stream is dropped without an error)
     zb = F.fn("Stream::decompress_zlib")
